@@ -1,0 +1,123 @@
+//go:build verif
+
+package mailbox
+
+import (
+	"context"
+	"net"
+
+	"github.com/btcsuite/btcd/btcec/v2"
+	"github.com/lightninglabs/lightning-node-connect/hashmailrpc"
+)
+
+// This file is only compiled with the `verif` build tag. It adds read-only
+// accessors and constructors that let an external monitoring harness observe
+// the noise machine and plug an in-memory relay into Server and Client. Nothing
+// here changes the behaviour of the package.
+
+// VerifMachineSnapshot is a copy of the observable state of a noise Machine.
+type VerifMachineSnapshot struct {
+	Version         byte
+	HaveSendCipher  bool
+	HaveRecvCipher  bool
+	SendKey         [32]byte
+	RecvKey         [32]byte
+	SendNonce       uint64
+	RecvNonce       uint64
+	RemoteStatic    *btcec.PublicKey
+	ReceivedPayload []byte
+	PendingHeader   int
+	PendingBody     int
+}
+
+// VerifSnapshot returns a copy of the Machine's observable state. It must be
+// called from the goroutine that is using the Machine (the Machine itself is
+// not synchronised).
+func (b *Machine) VerifSnapshot() VerifMachineSnapshot {
+	s := VerifMachineSnapshot{
+		Version:        b.version,
+		HaveSendCipher: b.sendCipher.cipher != nil,
+		HaveRecvCipher: b.recvCipher.cipher != nil,
+		SendKey:        b.sendCipher.secretKey,
+		RecvKey:        b.recvCipher.secretKey,
+		SendNonce:      b.sendCipher.nonce,
+		RecvNonce:      b.recvCipher.nonce,
+		RemoteStatic:   b.remoteStatic,
+		PendingHeader:  len(b.nextHeaderSend),
+		PendingBody:    len(b.nextBodySend),
+	}
+	if b.receivedPayload != nil {
+		s.ReceivedPayload = append([]byte{}, b.receivedPayload...)
+	}
+
+	return s
+}
+
+// VerifMachine returns the noise machine of a NoiseGrpcConn (nil before a
+// handshake was started).
+func (c *NoiseGrpcConn) VerifMachine() *Machine {
+	c.proxyConnMtx.RLock()
+	defer c.proxyConnMtx.RUnlock()
+
+	return c.noise
+}
+
+// VerifMachine returns the noise machine of a NoiseConn.
+func (c *NoiseConn) VerifMachine() *Machine {
+	return c.noise
+}
+
+// VerifNewNoiseConn wraps an established net.Conn and a Machine that has
+// completed its handshake into a NoiseConn, exactly as Listener.doHandshake
+// does for the responder side.
+func VerifNewNoiseConn(conn net.Conn, noise *Machine) *NoiseConn {
+	return &NoiseConn{
+		conn:  conn,
+		noise: noise,
+	}
+}
+
+// VerifNewServer is NewServer with the hashmail client supplied by the caller
+// instead of being dialled.
+func VerifNewServer(serverHost string, connData *ConnData,
+	onNewStatus func(status ServerStatus),
+	client hashmailrpc.HashMailClient) (*Server, error) {
+
+	sid, err := connData.SID()
+	if err != nil {
+		return nil, err
+	}
+
+	s := &Server{
+		serverHost:  serverHost,
+		client:      client,
+		connData:    connData,
+		sid:         sid,
+		onNewStatus: onNewStatus,
+		log:         log.WithPrefix("(server)"),
+		quit:        make(chan struct{}),
+	}
+
+	s.ctx, s.cancel = context.WithCancel(context.Background())
+
+	return s, nil
+}
+
+// VerifWithHashMailClient is WithGrpcConn with the hashmail client supplied by
+// the caller instead of being derived from a grpc connection.
+func VerifWithHashMailClient(c hashmailrpc.HashMailClient) ClientOption {
+	return func(client *Client) {
+		client.grpcClient = c
+	}
+}
+
+// VerifStripJSONWrapper exposes stripJSONWrapper.
+func VerifStripJSONWrapper(wrapped string) (string, error) {
+	return stripJSONWrapper(wrapped)
+}
+
+// VerifEkeMaskRoundTrip masks and unmasks a key with the given stretched
+// passphrase and reports whether the result equals the input.
+func VerifEkeMaskRoundTrip(e *btcec.PublicKey, pw []byte) bool {
+	return ekeUnmask(ekeMask(e, pw), pw).IsEqual(e)
+}
